@@ -3480,6 +3480,16 @@ func LaxNotEqual(left, right Value) bool {
 // When successful returns (result).
 // When there are no builtin addition functions for the given type returns (undefined).
 func EqualVal(left, right Value) Value {
+	if left.IsReference() {
+		switch left.AsReference().(type) {
+		case *BigInt, *BigFloat, String, Float64, Int64, UInt64:
+		default:
+			// no builtin equality for this type: its `==` method decides,
+			// and it may accept values of other classes (a tuple equals a list with the same elements)
+			return Undefined
+		}
+	}
+
 	class := left.Class()
 	if !IsA(right, class) {
 		return False.ToValue()
